@@ -1,5 +1,6 @@
 // Kernel boundary probe: the segment geometry Erat::init computes for (start, stop, sieve size KiB)
 //   GEOM start stop kb  -> "low high bytes maxSmall maxMedium"   (start >= 7)
+//   XOFF size l1 prime mi wi -> the bytes EratSmall::crossOff changes for one sieving prime, and its stored state
 #include <stdint.h>
 #include <cstddef>
 #include <string>
@@ -49,6 +50,17 @@ int main()
       // Wheel::addSievingPrime unit level: "<multipleIndex> <wheelIndex>" | "none"
       if (t[0] == "ASP30") { Rec<Wheel30_t> w; w.stop_ = u64(t[1]); w.addSievingPrime(u64(t[2]), u64(t[3])); if (w.stored) std::cout << w.mi << " " << w.wi << std::endl; else std::cout << "none" << std::endl; }
       else { Rec<Wheel210_t> w; w.stop_ = u64(t[1]); w.addSievingPrime(u64(t[2]), u64(t[3])); if (w.stored) std::cout << w.mi << " " << w.wi << std::endl; else std::cout << "none" << std::endl; }
+    } else if (t.size() >= 6 && t[0] == "XOFF") {
+      // XOFF size l1 prime multipleIndex wheelIndex: the real EratSmall::crossOff on an all-ones sieve of `size` bytes with one
+      // sieving prime in the given state: "byte:value ..." for every byte that changed, then "| multipleIndex wheelIndex"
+      std::size_t size = (std::size_t) u64(t[1]); uint64_t prime = u64(t[3]);
+      EratSmall es; es.init(~0ull, u64(t[2]), prime);
+      es.storeSievingPrime(prime, u64(t[4]), u64(t[5]));
+      Vector<uint8_t> sieve; sieve.resize(size); for (std::size_t i = 0; i < size; i++) sieve[i] = 0xff;
+      es.crossOff(sieve);
+      std::string out;
+      for (std::size_t i = 0; i < size; i++) if (sieve[i] != 0xff) out += std::to_string(i) + ":" + std::to_string((unsigned) sieve[i]) + " ";
+      std::cout << out << "| " << es.primes_[0].getMultipleIndex() << " " << es.primes_[0].getWheelIndex() << std::endl;
     } else if (t.size() >= 3 && t[0] == "NBUF") {
       // forward buffer after the first generate_next_primes() of iterator(start, hint):
       // "<buffer size (Vector::size)> <size_> <chunk stop> <primeCountUpper(start, stop)>"
